@@ -115,10 +115,22 @@ theorem layout_inverse (d : Dim) (s1 s2 : LayoutSpec) (h1 : Gen.m2c d = .ok s1) 
 slicing (`Image.slice`) and in reduction (`AxisReduction`), and that axis is the one the
 coordinate system assigns to the name. -/
 theorem slice_reduce_name_eq_index :
-    ∀ d ∈ [Dim.d2, Dim.d3], ∀ a ∈ d.cartAxes,
+    ∀ d ∈ Dim.all, ∀ a ∈ d.cartAxes,
       ∃ p ∈ [(0 : Fin 3), 1, 2], ∃ r ∈ [true, false], Gen.interpret a d.mat = .ok (p.val, r) ∧
         Gen.sliceAxis (.name a) d = .ok p.val ∧ Gen.sliceAxis (.idx p) d = .ok p.val ∧
         Gen.reduceAxis (.name a) d = .ok (p.val, a.pos) ∧ Gen.reduceAxis (.idx p) d = .ok (p.val, a.pos) := by
+  decide
+
+/-- base extents of the image the slice table was tabulated on (2 x 3 x 5) -/
+def baseExtent : Nat → Nat | 0 => 2 | 1 => 3 | _ => 5
+
+/-- Slicing by Cartesian name at the physical centre of voxel `v` (coordinate computed from the axis table, the origin
+and the voxel size — on reversed axes the coordinate DEcreases with the index) selects exactly index `v` of the matrix
+axis the coordinate system assigns to the name: name-addressing and index-addressing select the same data. Tabulated
+from the running `Image.slice` on the base shape for every dimension, axis and voxel. -/
+theorem slice_by_name_selects_voxel :
+    ∀ d ∈ Dim.all, ∀ a ∈ d.cartAxes, ∃ p ∈ List.range 3, ∃ r ∈ [true, false],
+      Gen.interpret a d.mat = .ok (p, r) ∧ ∀ v ∈ List.range (baseExtent p), Gen.sliceSel a d v = .ok v := by
   decide
 
 /-- non-vacuity: the 3-D tables are populated (the hypotheses of the layout theorems are met). -/
